@@ -39,7 +39,9 @@ type Params struct {
 	Icpt       int             // number of interceptors (counting + header-appending); last one panics if IcptPanic
 	IcptPanic  bool
 	Acks       sarama.RequiredAcks
+	Sync       int // 0 async producer, 1 SyncProducer.SendMessage per message, 2 one SendMessages call
 	Codec      sarama.CompressionCodec
+	KV         bool // keys and headers on some messages (see KeyOf / HeadersOf)
 }
 
 func atoi(v url.Values, k string, def int) int {
@@ -59,11 +61,22 @@ func Parse(v url.Values) (*Params, error) {
 		NBrokers: atoi(v, "nb", 1), FlushMsgs: atoi(v, "fm", 0), FlushMax: atoi(v, "fx", 0), FlushFreq: time.Duration(atoi(v, "ff", 0)) * time.Millisecond,
 		Backoff: time.Duration(atoi(v, "bo", 0)) * time.Millisecond, Policy: v.Get("policy"), CloseAny: atoi(v, "closeany", 0) == 1,
 		LastAfter: atoi(v, "lastafter", 0) == 1, Icpt: atoi(v, "icpt", 0), IcptPanic: atoi(v, "icptpanic", 0) == 1,
-		Acks: sarama.RequiredAcks(atoi(v, "acks", 1)),
+		Acks: sarama.RequiredAcks(atoi(v, "acks", 1)), Sync: atoi(v, "sync", 0),
 	}
 	if p.Policy == "" {
 		p.Policy = "drain"
 	}
+	switch v.Get("codec") {
+	case "gzip":
+		p.Codec = sarama.CompressionGZIP
+	case "snappy":
+		p.Codec = sarama.CompressionSnappy
+	case "lz4":
+		p.Codec = sarama.CompressionLZ4
+	case "zstd":
+		p.Codec = sarama.CompressionZSTD
+	}
+	p.KV = atoi(v, "kv", 0) == 1
 	ver := v.Get("ver")
 	if ver == "" {
 		ver = "2.1.0"
@@ -163,6 +176,9 @@ type rig struct {
 	client    sarama.Client
 	submitCh  chan *sarama.ProducerMessage
 	setupErr  error
+	batch     []*sarama.ProducerMessage
+	calls     int
+	sync      sarama.SyncProducer
 }
 
 func msgID(i int) string { return "m" + strconv.Itoa(i) }
@@ -220,6 +236,18 @@ func run(c *gx.Ctl, p *Params) *gx.Outcome {
 			return
 		}
 		r.client = client
+		if p.Sync > 0 {
+			sp, err := sarama.NewSyncProducerFromClient(client)
+			if err != nil {
+				r.setupErr = err
+				return
+			}
+			r.mu.Lock()
+			r.sync = sp
+			r.prod = syncStandIn{}
+			r.mu.Unlock()
+			return
+		}
 		prod, err := sarama.NewAsyncProducerFromClient(client)
 		if err != nil {
 			r.setupErr = err
@@ -302,7 +330,74 @@ func (r *rig) actors() []gx.Actor {
 				r.submitted++
 				r.mu.Unlock()
 				id := msgID(i)
-				r.submitCh <- &sarama.ProducerMessage{Topic: "t", Partition: p.Parts[i], Value: sarama.StringEncoder(id), Metadata: id}
+				msg := &sarama.ProducerMessage{Topic: "t", Partition: p.Parts[i], Value: sarama.StringEncoder(id), Metadata: id}
+				if k := p.KeyOf(i); k != nil {
+					msg.Key = sarama.ByteEncoder(k)
+				}
+				msg.Headers = p.HeadersOf(i)
+				switch p.Sync {
+				case 0:
+					r.submitCh <- msg
+				case 1:
+					// SyncProducer.SendMessage from its own goroutine (several may be in flight)
+					r.mu.Lock()
+					r.accepted++
+					r.calls++
+					r.mu.Unlock()
+					go func() {
+						part, off, err := r.sync.SendMessage(msg)
+						r.mu.Lock()
+						if err != nil {
+							r.events = append(r.events, event{id: id, ok: false, part: msg.Partition, err: err.Error()})
+						} else {
+							r.events = append(r.events, event{id: id, ok: true, part: part, off: off})
+						}
+						r.calls--
+						r.mu.Unlock()
+					}()
+				case 2:
+					// all messages go out in ONE SendMessages call, made when the last one is "submitted"
+					r.mu.Lock()
+					r.accepted++
+					r.batch = append(r.batch, msg)
+					last := r.submitted == p.NMsgs
+					batch := r.batch
+					if last {
+						r.calls++
+					}
+					r.mu.Unlock()
+					if last {
+						go func() {
+							err := r.sync.SendMessages(batch)
+							failed := map[*sarama.ProducerMessage]string{}
+							if pes, ok := err.(sarama.ProducerErrors); ok {
+								for _, pe := range pes {
+									failed[pe.Msg] += pe.Err.Error()
+									if _, mine := indexOf(batch, pe.Msg); !mine {
+										r.mu.Lock()
+										r.events = append(r.events, event{id: "?alien-error", ok: false, err: pe.Err.Error()})
+										r.mu.Unlock()
+									}
+								}
+							} else if err != nil {
+								for _, m := range batch {
+									failed[m] = err.Error()
+								}
+							}
+							r.mu.Lock()
+							for _, m := range batch {
+								mid, _ := m.Metadata.(string)
+								if e, bad := failed[m]; bad {
+									r.events = append(r.events, event{id: mid, ok: false, part: m.Partition, err: e})
+								} else {
+									r.events = append(r.events, event{id: mid, ok: true, part: m.Partition, off: m.Offset})
+								}
+							}
+							r.calls--
+							r.mu.Unlock()
+						}()
+					}
+				}
 			}}}})
 		}
 	}
@@ -319,6 +414,15 @@ func (r *rig) actors() []gx.Actor {
 			r.mu.Lock()
 			r.closing = true
 			r.mu.Unlock()
+			if r.sync != nil {
+				go func() {
+					_ = r.sync.Close()
+					r.mu.Lock()
+					r.succDone, r.errDone = true, true
+					r.mu.Unlock()
+				}()
+				return
+			}
 			r.prod.AsyncClose()
 		}}}})
 	}
@@ -343,4 +447,35 @@ func (r *rig) digest() string {
 	sort.Strings(ev)
 	fmt.Fprintf(&sb, "E%v S%d C%v P%s", ev, r.submitted, r.closing, r.cl.PendingKinds())
 	return sb.String()
+}
+
+// syncStandIn marks "a producer exists" for the actor provider when the SyncProducer is under test.
+type syncStandIn struct{ sarama.AsyncProducer }
+
+func indexOf(l []*sarama.ProducerMessage, m *sarama.ProducerMessage) (int, bool) {
+	for i, x := range l {
+		if x == m {
+			return i, true
+		}
+	}
+	return -1, false
+}
+
+// KeyOf / HeadersOf: the key and headers message i is submitted with (kv=1: odd messages carry a
+// key - every fourth an empty one -, every third message headers when the format has them).
+func (p *Params) KeyOf(i int) []byte {
+	if !p.KV || i%2 == 0 {
+		return nil
+	}
+	if i%4 == 3 {
+		return []byte{}
+	}
+	return []byte("key-" + strconv.Itoa(i))
+}
+
+func (p *Params) HeadersOf(i int) []sarama.RecordHeader {
+	if !p.KV || i%3 != 0 || !p.Version.IsAtLeast(sarama.V0_11_0_0) {
+		return nil
+	}
+	return []sarama.RecordHeader{{Key: []byte("h"), Value: []byte("v" + strconv.Itoa(i))}, {Key: []byte("empty"), Value: []byte{}}}
 }
